@@ -843,7 +843,13 @@ def check_bruteforce(ad, kw, good, rec, kind="bruteforce"):
         kk = dict(kw)
         if allsol:
             kk["all_solutions"] = True
-        res = lib(P.solve_bruteforce, what="solve_bruteforce", **kk)
+        pos = ()
+        if set(kw) in ({"A", "B"}, {"A"}) and not allsol:
+            # the penalty weights handed over positionally, in the documented order of to_qubo(A, B)
+            pos = (kk.pop("A"),) + ((kk.pop("B"),) if "B" in kk else ())
+        res = lib(P.solve_bruteforce, *pos, what="solve_bruteforce", **kk)
+        if pos:
+            kk = dict(kw)
         if allsol:
             if not isinstance(res, list) or not res:
                 ad.bad(kind + "_result", "solve_bruteforce(%r) returned %r" % (kk, res))
